@@ -79,6 +79,23 @@ def run(tier, seed):
                     differing.append(v)
         else:
             differing.append(u)
+    # the first differing value of a block may differ only in the error payload: look further for a value on which ACCEPTANCE differs
+    # (that is an input on which the property itself fails), enumerating the mismatching blocks value by value
+    found_accept = False
+    for i in mism_blocks[:6]:
+        if found_accept:
+            break
+        lo = i * block
+        if cmd == "dtfields":
+            vals = [u * 2048 for u in range(lo, min(lo + block, total))]
+        else:
+            vals = sorted({lo + (k << 11) for k in range(block >> 11)} | {lo + rng.below(block) for _ in range(100000)})
+        q = [f"dt {v}" for v in vals]
+        ma, mb = run_parallel(drv, q, jobs=8), run_parallel(har, q, jobs=8)
+        hits = [v for v, x, y in zip(vals, ma, mb) if x.split()[0] != y.split()[0]]
+        if hits:
+            differing = hits[:6] + differing
+            found_accept = True
     oks = sum(int(x.split("ok=")[1]) for x in b if "ok=" in x)
     n_viol = 0
     for v in differing[:50]:
